@@ -20,6 +20,10 @@ JReadOne(fn, in, rr, e) ==
        rr.ser = Take(in, consumed), cls),
      R("C01", "ser_is_prefix_of_input", acc /\ rr.serok /\ ~rr.hasrem,
        IsPrefix(rr.ser, in) /\ (ref.known /\ ref.ok => Len(rr.ser) = ref.consumed), cls),
+     \* ... and still does after every read-only query of the value has been called (twice): a query must not disturb the value
+     R("C01", "ser_eq_consumed_after_queries", acc /\ rr.serok /\ "stab" \in DOMAIN rr /\ rr.stab.done /\ rr.stab.reser,
+       rr.stab.ser2 = rr.ser, cls),
+     R("C02", "accessors_stable_under_queries", acc /\ "stab" \in DOMAIN rr /\ rr.stab.done, Len(rr.stab.unstable) = 0, cls),
      R("C03", "rem_is_suffix", acc /\ rr.hasrem, IsSuffix(rr.rem, in), cls),
      R("C03", "consumes_declared_extent", acc /\ rr.hasrem /\ ref.known /\ ref.ok,
        consumed = ref.consumed, cls),
